@@ -29,6 +29,7 @@ type sschedJ struct {
 	Steps []sstepJ                     `json:"steps"`
 	Got   map[string][]struct{ K int } `json:"got"`
 	Bad   []string                     `json:"bad"`
+	Fin   int                          `json:"fin"`
 }
 
 var c13Gates = []string{"proxy.sub.local", "proxy.sub.inc", "proxy.sub.key", "proxy.sub.rpc",
@@ -348,7 +349,13 @@ func runSchedule(s *scenario, sc *sschedJ) (int, string) {
 		}
 	}
 	// every expected event has been waited for: nothing may still be queued
-	hev("quiet")
+	if sc.Fin == 1 {
+		// a call on every connection: what the server sent before is dispatched
+		for _, c := range s.conns {
+			c.bomb(s.w, s.id).IsStatsEnabled()
+		}
+		hev("quiet")
+	}
 	g.open()
 	s.windDown()
 	return -1, ""
